@@ -1292,7 +1292,10 @@ class EigenvalueCorrectedShampooPreconditionerList(
                     try:
                         computed_eigenvectors = matrix_eigenvectors(
                             A=factor_matrix,
-                            eigenvectors_estimate=factor_matrix_eigenvectors,
+                            # The estimate is stored in the block's dtype, which may differ from the factor matrix dtype.
+                            eigenvectors_estimate=factor_matrix_eigenvectors.to(
+                                dtype=factor_matrix.dtype
+                            ),
                             eigenvector_computation_config=eigenvector_computation_config,
                             is_diagonal=bool(is_factor_matrix_diagonal),
                         )
